@@ -264,8 +264,9 @@ def h_drift(shape):
                 mark = t_after
             elif op[0] == "eom_pulse":
                 prog = op[1]
+                post = op[3] if len(op) > 3 else 0.0  # a virtual-Z after the pulse, on top of the drift correction
                 seq.add_eom_pulse("g", inp.mult("d%d" % i, 4, 8, 4 * kmax), prog, correct_phase_drift=True,
-                                  protocol=op[2] if len(op) > 2 else "min-delay")
+                                  protocol=op[2] if len(op) > 2 else "min-delay", **({"post_phase_shift": post} if post else {}))
                 sl = cs.slots[-1]
                 expect = det_off * (sl.ti - mark) * 1e-3
                 # C10 inside EOM mode: different stored phases => phase-jump gap (at least 2*rise_time) + fall time
@@ -282,7 +283,7 @@ def h_drift(shape):
                     obs.append(("c10:eom_phase_jump_gap", IMPLIES(differ, sl.ti - prev.tf >= need)))
                 obs.append(("k4:pulse_phase_compensates_drift",
                             congruent(facade._unwrap0(sl.type.phase), prog + before_ref + expect)))
-                obs.append(("k4:pulse_ref_compensates_drift", congruent(ref_phase(), before_ref + expect)))
+                obs.append(("k4:pulse_ref_compensates_drift", congruent(ref_phase(), before_ref + expect + post)))
                 mark = sl.tf
             elif op[0] == "delay":
                 seq.delay(inp.mult("d%d" % i, 4, 8, 4 * kmax), "g")
@@ -320,6 +321,10 @@ PROGRAMS = [
     [["enable", 2.0, 0.0, -1.0], ["eom_pulse", 0.5], ["delay"], ["eom_pulse", 0.5], ["eom_pulse", 0.5], ["delay"], ["delay"], ["eom_pulse", 0.5]],
     # new off-detuning exactly 0 after a non-zero one (both beams switched off, balanced light shifts)
     [["enable", 2.0, 1.0, -1.0], ["eom_pulse", 0.0], ["delay"], ["modify", 1.0, 0.0, 0.0], ["eom_pulse", 0.5], ["disable"]],
+    # set-point modified right after enabling on an EMPTY channel (the only earlier slot is the initial target slot)
+    [["enable", 2.0, 0.0, -1.0], ["modify", 1.0, 0.0, 3.0], ["eom_pulse", 0.0], ["disable"]],
+    # post_phase_shift together with the drift correction
+    [["enable", 2.0, 0.0, -1.0], ["eom_pulse", 0.5, "min-delay", 0.75], ["delay"], ["eom_pulse", 0.0, "min-delay", 1.25], ["eom_pulse", 1.0], ["disable"]],
     [["add"], ["enable", 1.0, 0.0, 0.0], ["delay"], ["modify", 2.0, 3.0, -5.0], ["delay"], ["modify", 1.0, 0.0, 0.0], ["eom_pulse", 0.5], ["disable"]],
 ]
 
